@@ -1618,6 +1618,43 @@ impl Hasher {
     }
 }
 
+// Verification hook (off unless built with --cfg blake3_team_blake3_verif): the byte ranges
+// (offset, length) of every field of Hasher / OutputReader other than `platform`, so that a
+// memory scan after zeroize() can tell fields from padding.
+#[cfg(all(blake3_team_blake3_verif, feature = "std"))]
+#[doc(hidden)]
+pub fn verif_secret_field_ranges_hasher() -> std::vec::Vec<(usize, usize)> {
+    use core::mem::{offset_of, size_of};
+    std::vec![
+        (offset_of!(Hasher, key), size_of::<CVWords>()),
+        (offset_of!(Hasher, chunk_state.cv), size_of::<CVWords>()),
+        (offset_of!(Hasher, chunk_state.chunk_counter), 8),
+        (offset_of!(Hasher, chunk_state.buf), BLOCK_LEN),
+        (offset_of!(Hasher, chunk_state.buf_len), 1),
+        (offset_of!(Hasher, chunk_state.blocks_compressed), 1),
+        (offset_of!(Hasher, chunk_state.flags), 1),
+        (offset_of!(Hasher, initial_chunk_counter), 8),
+        (
+            offset_of!(Hasher, cv_stack),
+            size_of::<ArrayVec<CVBytes, { MAX_DEPTH + 1 }>>(),
+        ),
+    ]
+}
+
+#[cfg(all(blake3_team_blake3_verif, feature = "std"))]
+#[doc(hidden)]
+pub fn verif_secret_field_ranges_output_reader() -> std::vec::Vec<(usize, usize)> {
+    use core::mem::{offset_of, size_of};
+    std::vec![
+        (offset_of!(OutputReader, inner.input_chaining_value), size_of::<CVWords>()),
+        (offset_of!(OutputReader, inner.block), BLOCK_LEN),
+        (offset_of!(OutputReader, inner.block_len), 1),
+        (offset_of!(OutputReader, inner.counter), 8),
+        (offset_of!(OutputReader, inner.flags), 1),
+        (offset_of!(OutputReader, position_within_block), 1),
+    ]
+}
+
 // Don't derive(Debug), because the state may be secret.
 impl fmt::Debug for Hasher {
     fn fmt(&self, f: &mut fmt::Formatter) -> fmt::Result {
